@@ -26,17 +26,40 @@ def lean_str(s):
     return "".join(out)
 
 def main():
+    """Runs every fragment generator on its own.  A generator that does not recognise the shape
+    of the source raises SystemExit: its previous output is left in place and the failure is
+    recorded in work/extract_status.json, so that bin/check can treat exactly the obligations
+    that depend on that fragment as broken (and no others)."""
+    import importlib.util, json
     os.makedirs(GEN, exist_ok=True)
-    # filled in per fragment below
-    import importlib.util
+    os.makedirs(os.path.join(ROOT, "work"), exist_ok=True)
+    status = {}
     frag_dir = os.path.join(ROOT, "bin", "fragments")
-    if os.path.isdir(frag_dir):
-        for f in sorted(glob.glob(os.path.join(frag_dir, "*.py"))):
-            spec = importlib.util.spec_from_file_location(os.path.basename(f)[:-3], f)
+    for f in sorted(glob.glob(os.path.join(frag_dir, "*.py"))):
+        key = os.path.basename(f)
+        try:
+            spec = importlib.util.spec_from_file_location(key[:-3], f)
             m = importlib.util.module_from_spec(spec)
             spec.loader.exec_module(m)
             name, text = m.generate(REPO, lean_str)
             write_if_changed(os.path.join(GEN, name), text)
+            status[name] = "ok"
+        except SystemExit as e:
+            status[guess_output(f)] = "extraction failed: %s" % (e,)
+        except Exception as e:  # a source file moved, unreadable, …
+            status[guess_output(f)] = "extraction failed: %r" % (e,)
+    with open(os.path.join(ROOT, "work", "extract_status.json"), "w") as fh:
+        json.dump(status, fh, indent=1)
+    bad = {k: v for k, v in status.items() if v != "ok"}
+    for k, v in bad.items():
+        print("%s: %s" % (k, v))
+    sys.exit(1 if bad else 0)
+
+def guess_output(fragment_path):
+    """the Generated/*.lean file a fragment writes (named in its source as the returned file name)"""
+    src = open(fragment_path).read()
+    m = re.findall(r'return\s+"(\w+\.lean)"', src)
+    return m[-1] if m else os.path.basename(fragment_path)
 
 if __name__ == "__main__":
     main()
